@@ -618,6 +618,32 @@ pub fn run(cx: &mut Cx) {
             }
         }
 
+        // (4b) the size ladder: streams of 2^22 and 2^24 bytes (thorough: 2^26)
+        // plus a little, delivered in one write, in two, and in 4 MiB pieces
+        // (a per-call or per-buffer limit - "at most 4 MiB per write" - shows
+        // one rung above it and nowhere below).  One shard only: a 16 MiB
+        // stream is about 130 000 entries.
+        if cx.mine(1) && matches!(cx.tier, Tier::Quick | Tier::Thorough) {
+            let rungs: Vec<usize> = if cx.tier == Tier::Thorough { vec![1 << 22, 1 << 24, 1 << 26] } else { vec![1 << 22, 1 << 24] };
+            let mut r = cx.shared_stream("size-ladder");
+            cx.set_budget(1 << 32, 1 << 40);
+            for rung in rungs {
+                let st = gs::huge_stream(&mut r, rung + 1500, Shape::Tiny);
+                cx.ev.max("max/stream_bytes", st.len() as u64);
+                cx.ev.max("max/stream_entries", st.entries.len() as u64);
+                cx.ev.count("ladder/streams");
+                let len = st.len();
+                for (family, cuts) in [
+                    ("one_call", vec![]),
+                    ("fixed_4096", vec![len / 2 + 1]),
+                    ("fixed_4096", gs::fixed_cuts(len, 1 << 22)),
+                ] {
+                    huge_case(cx, &st, family, cuts);
+                }
+            }
+            cx.default_budget();
+        }
+
         // (5) a malformed entry late in a huge stream
         let plan: Vec<(usize, Shape)> = match cx.tier {
             Tier::Small => vec![(80_000, Shape::Small)],
@@ -670,6 +696,31 @@ pub fn run(cx: &mut Cx) {
                         huge_case(cx, &st, family, cuts);
                     }
                 }
+            }
+        }
+    }
+
+    // ---- the very first line of the stream is not `VAR=value` with a known
+    // VAR because something invisible or innocuous stands in front of the
+    // name (a byte order mark, a blank, a zero-width space, '#'): the first
+    // entry is malformed like any other entry with an unknown variable ------
+    if !mini {
+        let mut r = cx.shared_stream("decorated-first-line");
+        for (k, deco) in ["\u{feff}", " ", "\t", "\u{a0}", "\u{200b}", "#", "\u{feff}\u{feff}", "\u{fffe}"].iter().enumerate() {
+            for n in [1usize, 3] {
+                let name = VARS[(k * 5 + n) % VARS.len()].name;
+                let fault = Fault::BadName(format!("{deco}{name}=x"), "decorated-first-line");
+                let st = gs::bad_stream(&mut r, n, 0, fault, Pos::First);
+                let b = Budget {
+                    all_single: true,
+                    single_sample: 0,
+                    all_pairs_max_len: 0,
+                    pair_sample: cx.pick_tier(0, 10, 60, 200),
+                    random: cx.pick_tier(0, 2, 10, 40),
+                    empties: cx.pick_tier(0, 1, 4, 16),
+                    fixed: &FIXED,
+                };
+                families(cx, &st, &b, &mut counter, &format!("decorated-first-line-{k}-{n}"));
             }
         }
     }
